@@ -1,12 +1,95 @@
-"""C02 A 'safe' or 'unreachable' assertion verdict is never wrong (intra-procedural forward analysis + checker part)."""
-from checks import c01
+"""C02 A 'safe' or 'unreachable' assertion verdict is never wrong.
+Phase 1: intra-procedural forward analysis + intra_checker (harness/prog_runner);
+Phase 2: forward+backward analyzer with every fwd_bwd parameter setting + checker (harness/bwd_runner, mode "fb");
+Phase 3: top-down inter-procedural analyzer with the interleaved checker (harness/inter_runner).
+All judged by TLC against every concrete execution (spec/ProgSound.tla VerdictsSound, spec/InterSound.tla VerdictsSound)."""
+import json
+import vlib, proggen, intergen
+from vlib import Check, build
+from checks import c01, progsound, intersound, c09
 
 PID = "C02"
+FB_DOMS = ["intervals", "split_dbm", "sparse_dbm", "split_oct", "bool_int", "dis_intervals", "term_int", "as_sdbm", "sign", "pow_int",
+           "ric", "aa_int", "num_product"]
+
+
+def report(ck, viols, what):
+    for v in viols:
+        if v.get("bad_invariant") and not v["bad_verdict"]:
+            vlib.log("NOTE: program %d violates an invariant property for %s (reported by that property's check)" % (v["prog"], v["bad_invariant"]))
+        for run, dom in v["bad_verdict"][:3]:
+            cfg = v["program"]["runs"][run - 1]
+            prog = dict(v["program"])
+            prog["runs"] = [cfg]
+            ck.violation("C02 (%s): domain %s (config %s): assertion verdict contradicted at %s; concrete state %s" %
+                         (what, dom, json.dumps(cfg), {k: v[k] for k in ("fn", "block", "idx") if k in v}, v["state"]),
+                         {"program": prog, "violation": {x: v[x] for x in v if x != "program"}, "phase": what})
 
 
 def run(tier, seed):
-    return c01.run_generic(PID, tier, seed + 500, asserts=True, which="verdict")
+    ck = Check(PID, tier, seed + 500)
+    build("prog_runner", "bwd_runner", "inter_runner")
+    doms = progsound.all_domains()
+    n1, n2, n3 = (100, 80, 50) if tier == "quick" else (2000, 1500, 1000)
+    verdicts = {"safe": 0, "unreach": 0, "warn": 0, "err": 0}
+
+    def count(merged):
+        for p in merged:
+            for r in p["runs"]:
+                if r["err"] == 0:
+                    for c in r["checks"]:
+                        verdicts[c["res"]] = verdicts.get(c["res"], 0) + 1
+    # phase 1
+    for off in range(0, n1, 250):
+        ps = c01.gen_programs(ck, min(250, n1 - off), doms, True)
+        for p in ps:
+            p["id"] += off
+        viols, merged, _ = progsound.explore(ck, "fwd%d" % off, ps)
+        count(merged)
+        ck.cov["distinct_nontrivial"] += c01.nontrivial(merged)
+        if off == 0:
+            ck.sample({"program": {x: ps[0][x] for x in ("entry", "exit", "blocks", "init")}, "run_configs": ps[0]["runs"][:2]})
+        report(ck, viols, "forward")
+    # phase 2
+    for off in range(0, n2, 250):
+        ps = []
+        for i in range(min(250, n2 - off)):
+            p = proggen.program(ck.rng, 100000 + off + i, asserts=True)
+            p["runs"] = [{"dom": d, "mode": "fb", "bwd": 1, "refine": ck.rng.choice([0, 1, 5]), "use_refined": ck.rng.choice([0, 1]),
+                          "wd": ck.rng.choice([0, 1, 2]), "desc": ck.rng.choice([0, 1, 2]), "th": ck.rng.choice([0, 0, 5])} for d in FB_DOMS]
+            ps.append(p)
+        viols, merged, _ = progsound.explore(ck, "fb%d" % off, ps, runner="bwd_runner")
+        count(merged)
+        report(ck, viols, "forward+backward")
+    # phase 3
+    for off in range(0, n3, 200):
+        ps = []
+        for i in range(min(200, n3 - off)):
+            p = intergen.program(ck.rng, 200000 + off + i)
+            p["runs"] = [c09.td_config(ck.rng, d) for d in intersound.DOMS]
+            ps.append(p)
+        viols, merged, _ = intersound.explore(ck, "td%d" % off, ps)
+        count(merged)
+        report(ck, viols, "top-down inter-procedural")
+    ck.cov["verdicts_seen"] = verdicts
+    ck.cov["rule"] = ("seeded programs with numerical and boolean assertions: (1) x every domain, intra forward + checker; (2) x 13 domains, "
+                      "forward+backward analyzer with max_refine_iterations in {0,1,5}, use_refined_invariants on/off; (3) call graphs x 17 "
+                      "domains, top-down analyzer with interleaved checker and random inter parameters. Every concrete execution is "
+                      "explored; at each assertion: safe => condition holds, unreachable => never reached. non-trivial as in C01")
+    ck.assumptions += ["box -2..2 (intra) / -1..1 (inter); bounded universe; reference assertions are not generated yet"]
+    return ck.finish()
 
 
 def replay(path):
-    return c01.replay(path)
+    case = json.load(open(path))["case"]
+    ck = Check(PID, "quick", 0)
+    build("prog_runner", "bwd_runner", "inter_runner")
+    ph = case.get("phase", "forward")
+    if ph == "forward":
+        viols, _, _ = progsound.explore(ck, "replay", [case["program"]])
+    elif ph == "forward+backward":
+        viols, _, _ = progsound.explore(ck, "replay", [case["program"]], runner="bwd_runner")
+    else:
+        viols, _, _ = intersound.explore(ck, "replay", [case["program"]])
+    report(ck, viols, ph)
+    return ck.finish()
